@@ -7,7 +7,7 @@
 (* line per document with, per path, the texts in both notations and the   *)
 (* expected outcome for replay into Processor.get_nodes / exists.          *)
 (***************************************************************************)
-EXTENDS YQuery, YDocGen, Json, CSV, IOUtils, SequencesExt
+EXTENDS YQueryCases, YDocGen
 
 CONSTANTS Depth2,       \* BOOLEAN: also two-segment paths
           Rich,         \* BOOLEAN: the full vocabulary (thorough) or its reduced form (quick)
@@ -48,9 +48,9 @@ Stars == {Seg("MATCH_ALL", ""), Seg("TRAVERSE", "")}
 
 \* C15 families: segments whose selection is decided elsewhere (YKeywords) or not at all
 \* (collectors, ill-formed regular expressions); here only the outcome class matters.
-KwParams(d) == {"", "zz", "a,b", "'a", "9", "0"} \cup StrKeysOf(d)
+KwParamTexts(d) == {"", "zz", "a,b", "'a", "9", "0"} \cup StrKeysOf(d)
 CrashSegs(d) == IF ~CrashVocab THEN {} ELSE
-  {KeywordSeg(inv, kw, p) : inv \in BOOLEAN, kw \in Keywords, p \in KwParams(d)}
+  {KeywordSeg(inv, kw, p) : inv \in BOOLEAN, kw \in Keywords, p \in KwParamTexts(d)}
   \cup {SearchSeg(FALSE, "=~", a, t) : a \in {"."} \cup StrKeysOf(d), t \in {"(", "*", "[a", "a{2", "\\"}}
   \cup {CollectorSeg(e, "") : e \in {"*", "**", "a", "[0]", "zz"}}
 CrashPairs(d) == IF ~CrashVocab THEN {} ELSE
@@ -71,37 +71,19 @@ Small(d) == IF Rich THEN
               \cup {SearchSeg(inv, "=", a, "1") : inv \in BOOLEAN, a \in {".", "a"}}
 Paths(d) == CrashPairs(d) \cup {<<s>> : s \in V1(d)} \cup (IF Depth2 THEN {<<s1, s2>> : s1 \in Small(d), s2 \in Small(d)} ELSE {}) \cup {<<>>}
 
-(* ---- evaluation of one path ---- *)
-RECURSIVE TypesOf(_)
-TypesOf(p) == IF Len(p) = 0 THEN "" ELSE p[1].ty \o (IF Len(p) > 1 THEN "+" ELSE "") \o TypesOf(Tail(p))
-Case(d, p) ==
-  LET r == Sel(d, p) IN
-  [dot |-> Write(p, "."), sl |-> Write(p, "/"), ty |-> TypesOf(p),
-   cx |-> [j \in 1..Len(SelectSeq(p, LAMBDA s : s.ty = "COLLECTOR")) |-> SelectSeq(p, LAMBDA s : s.ty = "COLLECTOR")[j].v],
-   err |-> r.err, n |-> Len(r.res), ids |-> FlatIds(r.res), info |-> r.info, dead |-> r.dead,
-   virt |-> \E j \in 1..Len(r.res) : IsVirt(r.res[j])]
-
 (* ---- design theorems on Sel (checked in every fresh state) ---- *)
 Strict(ids) == \A j \in 1..(Len(ids) - 1) : ids[j] < ids[j + 1]
 HasTraverse(p) == \E j \in 1..Len(p) : p[j].ty = "TRAVERSE"
+HasKeyword(p) == \E j \in 1..Len(p) : p[j].ty = "KEYWORD"       \* parent() legitimately repeats an ancestor
 SelWellFormed(d, p) ==
   LET r == Sel(d, p) ids == FlatIds(r.res) IN
   /\ \A j \in 1..Len(ids) : ids[j] \in 1..Len(d)                      \* results are positions of the document
-  /\ (r.err = "" /\ ~HasTraverse(p) /\ ~r.info) => Strict(ids)        \* document order, no repeats
+  /\ (r.err = "" /\ ~HasTraverse(p) /\ ~HasKeyword(p) /\ ~r.info) => Strict(ids)   \* document order, no repeats
   /\ (Len(p) = 0 /\ ~(d[1].k = "s" /\ d[1].t = "null")) => ids = <<1>>   \* the empty path is the root
 
 MineShard == (Len(doc) + Len(doc[Len(doc)].v) + Len(doc[Len(doc)].keys)) % Shards = Shard
 
 Theorems == fresh => \A p \in Paths(doc) : SelWellFormed(doc, p)
 
-\* Cases are written in chunks of ChunkSize per line: lines stay below the size at which
-\* concurrent appends of TLC's workers could interleave.
-ChunkSize == 10
-RECURSIVE WriteChunks(_, _, _)
-WriteChunks(key, cs, from) ==
-  IF from > Len(cs) THEN TRUE
-  ELSE /\ CSVWrite("%1$s", <<ToJson([key |-> key, doc |-> doc, cases |-> SubSeq(cs, from, IF from + ChunkSize - 1 > Len(cs) THEN Len(cs) ELSE from + ChunkSize - 1)])>>, IOEnv.CASES_OUT)
-       /\ WriteChunks(key, cs, from + ChunkSize)
-
-Emit == (fresh /\ MineShard) => WriteChunks(ToString(doc), SetToSeq({Case(doc, p) : p \in Paths(doc)}), 1)
+Emit == (fresh /\ MineShard) => WriteChunks(doc, SetToSeq({Case(doc, p) : p \in Paths(doc)}), 1)
 =============================================================================
